@@ -1,5 +1,5 @@
 """Correspondence for the source-to-Lean translator (gen/py2lean.py) and its run-time library (lean/Asn1/PyLite.lean):
-the *translation* of a function (driver ops KTAG, KLEN, KTOBYTES, KOIDENC, KOIDDEC, KTIME, KREAL, KREALDEC, KDECLEN, KDECTAG, KOCTCHUNK, KSETOF, KCRANGE, KCSIZE, KCSINGLE, KCALPHA, KCERBOOL, KWRAP, KINTDEC; PYFROMBYTES) and the function itself in /repo are
+the *translation* of a function (driver ops KTAG, KLEN, KTOBYTES, KOIDENC, KOIDDEC, KTIME, KREAL, KREALDEC, KDECLEN, KDECTAG, KOCTCHUNK, KSETOF, KWREAD, KWMARK, PYBIO, KCRANGE, KCSIZE, KCSINGLE, KCALPHA, KCERBOOL, KWRAP, KINTDEC; PYFROMBYTES) and the function itself in /repo are
 run on the same arguments; the Python builtins PyLite transcribes (PYOP) are compared with CPython.
 
 A disagreement means the translator or PyLite misrepresents the code (machinery fault to repair) - it is reported as a
@@ -47,7 +47,7 @@ def _py(f, *a, **kw):
     return ('ok', r)
 
 
-def check(rep, drv, seed, n=400, which=('encodeTag', 'encodeLength', 'toBytes', 'oidEncode', 'oidDecode', 'timeCanon', 'realBin', 'realDec', 'decodeLength', 'cerBool', 'wrapTags', 'intDecode', 'decodeTag', 'octetChunks', 'constraintLeaves', 'setOfSort')):
+def check(rep, drv, seed, n=400, which=('encodeTag', 'encodeLength', 'toBytes', 'oidEncode', 'oidDecode', 'timeCanon', 'realBin', 'realDec', 'decodeLength', 'cerBool', 'wrapTags', 'intDecode', 'decodeTag', 'octetChunks', 'constraintLeaves', 'setOfSort', 'streamWrapper')):
     """returns number of cases compared"""
     from pyasn1.codec.ber import encoder as benc, decoder as bdec
     from pyasn1.compat import integer
@@ -490,6 +490,83 @@ def check(rep, drv, seed, n=400, which=('encodeTag', 'encodeLength', 'toBytes', 
             got = _ints(ans)
             if got != impl:
                 rep.disagree('KERNEL:setOfSort', line[:300], ans[:300], repr(impl)[:300])
+    if 'streamWrapper' in which:
+        import io as _io5
+        import os as _os5
+        from pyasn1.codec import streaming as _st5
+
+        class ScriptedRaw(object):
+            def __init__(self, answer):
+                self.answer = answer
+                self.asked = []
+
+            def read(self, n=-1):
+                self.asked.append(n)
+                return self.answer
+
+        def raw_line(v):
+            # the driver's plain format: words separated by blanks, '|' as separator
+            return v.replace('none', '-1').replace('some', '-2').replace('|', ' 999999 ')
+        for i in range(n):
+            # io.BytesIO itself (PyLite.BytesIO transcribes it)
+            buf = bytes(rng.randrange(256) for _ in range(rng.choice([0, 1, 2, 5, 8])))
+            pos = rng.choice([0, 0, 1, len(buf), len(buf) + 2, rng.randrange(0, len(buf) + 1)])
+            k = rng.choice([-1, 0, 1, 2, 3, 20])
+            b_ = _io5.BytesIO(buf); b_.seek(pos)
+            r_ = b_.read(k)
+            cmp_('PYBIO', 'PYBIO read %d %d 0 %s' % (pos, k, ' '.join(map(str, buf))),
+                 ('ok', list(r_) + [b_.tell()] + list(b_.getvalue())))
+            for whence in (0, 1, 2):
+                off = rng.choice([-20, -3, -1, 0, 1, 2, 9])
+                b_ = _io5.BytesIO(buf); b_.seek(pos)
+                try:
+                    q = b_.seek(off, whence)
+                    impl = ('ok', [q, b_.tell()] + list(b_.getvalue()))
+                except ValueError:
+                    impl = ('err', 'ValueError')
+                cmp_('PYBIO', 'PYBIO seek %d %d %d %s' % (pos, off, whence, ' '.join(map(str, buf))), impl)
+            data = bytes(rng.randrange(256) for _ in range(rng.choice([0, 0, 1, 2, 4])))
+            b_ = _io5.BytesIO(buf); b_.seek(pos)
+            w_ = b_.write(data)
+            cmp_('PYBIO', 'PYBIO write %d %d 0 %s %s' % (pos, len(data), ' '.join(map(str, data)), ' '.join(map(str, buf))),
+                 ('ok', [w_, b_.tell()] + list(b_.getvalue())))
+            # the wrapper's methods on a prepared object: cache contents and position, the raw stream's answer scripted
+            cache = bytes(rng.randrange(256) for _ in range(rng.choice([0, 1, 3, 6, 10])))
+            cpos = rng.randrange(0, len(cache) + 1)
+            want = rng.choice([-1, 0, 1, 2, 3, 5, 12])
+            kind = rng.choice(['none', 'empty', 'short', 'full'])
+            need = max(0, want - (len(cache) - cpos)) if want >= 0 else 4
+            answer = {'none': None, 'empty': b'', 'short': bytes(rng.randrange(256) for _ in range(max(0, need - 1))),
+                      'full': bytes(rng.randrange(256) for _ in range(need))}[kind]
+            for which_ in ('read', 'peek'):
+                w = _st5.CachingStreamWrapper(ScriptedRaw(answer))
+                w._cache = _io5.BytesIO(cache)
+                w._cache.seek(cpos)
+                res = getattr(w, which_)(want)
+                impl = ('ok', ([-1] if res is None else [-2] + list(res)) + [999999, w._cache.tell(), 999999] + list(w._cache.getvalue()))
+                line = 'KWREAD %s %d %d %d %d %s %s' % (which_, want, cpos, -1 if answer is None else len(answer), len(cache),
+                                                      ' '.join(map(str, cache)), ' '.join(map(str, answer or b'')))
+                nonlocal_done[0] += 1
+                rep.corr_checked += 1
+                ans = raw_line(drv.ask(line))
+                if _ints(ans) != impl:
+                    rep.disagree('KERNEL:wrap' + which_.capitalize(), line[:300], ans[:300], repr(impl)[:300])
+        # the markedPosition setter around the buffer size
+        B_ = _io5.DEFAULT_BUFFER_SIZE
+        for size, cpos in ((B_ - 1, B_ - 1), (B_, B_), (B_ + 1, B_), (B_ + 1, B_ + 1), (B_ + 40, B_ + 7), (2 * B_ + 3, B_ + 1), (10, 4), (0, 0)):
+            cache = bytes((7 * j + 3) % 256 for j in range(size))
+            w = _st5.CachingStreamWrapper(ScriptedRaw(b''))
+            w._cache = _io5.BytesIO(cache)
+            w._cache.seek(cpos)
+            w._markedPosition = 2
+            w.markedPosition = cpos
+            impl = ('ok', [w._markedPosition, 999999, w._cache.tell(), 999999] + list(w._cache.getvalue()))
+            line = 'KWMARK %d %d 2 %s' % (cpos, cpos, ' '.join(map(str, cache)))
+            nonlocal_done[0] += 1
+            rep.corr_checked += 1
+            ans = raw_line(drv.ask(line))
+            if _ints(ans) != impl:
+                rep.disagree('KERNEL:wrapSetMark', line[:120], ans[:120], repr(impl)[:120])
     if 'cerBool' in which:
         import io as _io2
         from pyasn1.codec.cer import decoder as cdec_
